@@ -529,6 +529,18 @@ def updatePath : RTree → Option (List Nat)
     (rootDown (node r ks) r ks mainPath up).bind fun dn =>
     some (up ++ dn)
 
+/-- the edges (orientation forgotten) along a list of nodes -/
+def pathEdges : List Nat → List (Nat × Nat)
+  | a :: b :: rest => unord (a, b) :: pathEdges (b :: rest)
+  | _ => []
+
+/-- all edge crossings when walking from every node of the list to the next one along
+    `path_from_to` (what TDVP does with the orthogonality centre between two updates) -/
+def walkEdges (t : RTree) : List Nat → Option (List (Nat × Nat))
+  | a :: b :: rest =>
+    (pathFromTo t a b).bind fun p => (walkEdges t (b :: rest)).map (fun w => pathEdges p ++ w)
+  | _ => some []
+
 /-! ### Keys of the initial cache -/
 
 mutual
